@@ -749,7 +749,7 @@ func main() {
 		os.Exit(3)
 	}
 	for _, n := range notes {
-		fmt.Printf("(* %s *)\n", strings.ReplaceAll(n, "*)", "* )"))
+		fmt.Printf("(* %s *)\n", strings.ReplaceAll(strings.ReplaceAll(n, "*)", "* )"), "(*", "( *"))
 	}
 	fmt.Print(out.String())
 }
